@@ -3,6 +3,7 @@ import PW.Proofs.SpecLemmas
 import PW.Proofs.Grid
 import PW.Proofs.Channels
 import PW.Proofs.Projective
+import PW.Props.Strings
 /-!
 # C09 — POVM measurement: probabilities and post-state
 
@@ -61,6 +62,15 @@ theorem projective_element_collapses (dims : List Nat) (p o : Nat) (hp : p < dim
     applyOn dims [p] (projector o) ρ (r ++ c) = projectOn dims p o ρ (r ++ c) :=
   applyOn_projector dims p o hp ho ρ r c hr hc
 
+/-- the einsum literals of `Envelope.measure_POVM` (both members / one member) are the generated plans
+for two members with interleaved axes, hence `Spec.applyOn` by the C01 theorem -/
+theorem envelope_povm_strings_are_generated_plans :
+    canon ((PW.Props.Strings.plansOf "photon_weave/state/envelope.py" "measure_POVM").getD 0 ([], []))
+        = canon (PW.Props.Strings.permuteAll (applyOperatorMatrix 2 [0, 1]) [0, 2, 1, 3]) ∧
+    canon ((PW.Props.Strings.plansOf "photon_weave/state/envelope.py" "measure_POVM").getD 1 ([], []))
+        = canon (PW.Props.Strings.permuteAxes (applyOperatorMatrix 2 [0]) 1 [0, 2, 1, 3]) :=
+  ⟨PW.Props.Strings.envelope_povm_two_member_string, PW.Props.Strings.envelope_povm_one_member_string⟩
+
 end PW.Props.C09
 
 #print axioms PW.Props.C09.povm_post_state_plan
@@ -69,3 +79,4 @@ end PW.Props.C09
 #print axioms PW.Props.C09.povm_weights_complete
 #print axioms PW.Props.C09.povm_weight_nonnegative
 #print axioms PW.Props.C09.projective_element_collapses
+#print axioms PW.Props.C09.envelope_povm_strings_are_generated_plans
